@@ -24,7 +24,7 @@ def run(ctx):
             xh.Cond(
                 f"formats: first=(expr#{e},copyright={cop},read_error={err}) x second free x LICENSES{{MIT,GPL-3.0,Foo}} in {forms}",
                 "REP.py", "_fmt",
-                {"nfiles": 2, "exprs": [0, 1, 3, 5], "prov_ids": ["MIT", "GPL-3.0", "Foo"], "forms": forms, "fix": {"file0": [err, cop, e]}},
+                {"nfiles": 2, "exprs": [0, 1, 5, 7, 8], "prov_ids": ["MIT", "GPL-3.0", "Foo"], "forms": forms, "fix": {"file0": [err, cop, e]}},
                 timeout=tmo, twin="_fmt_reach",
             )
         )
@@ -32,7 +32,7 @@ def run(ctx):
             xh.Cond(
                 f"lint-file: first=(expr#{e},copyright={cop},read_error={err}) x second free x LICENSES{{MIT}} x every subset F (incl. a non-covered file)",
                 "REP.py", "_lf",
-                {"nfiles": 2, "exprs": [0, 1, 5], "prov_ids": ["MIT"], "forms": [0, 1], "fix": {"file0": [err, cop, e]}},
+                {"nfiles": 2, "exprs": [0, 1, 7], "prov_ids": ["MIT"], "forms": [0, 1], "fix": {"file0": [err, cop, e]}},
                 timeout=tmo, twin="_lf_reach",
             )
         )
@@ -42,7 +42,7 @@ def run(ctx):
         "reuse.cli.lint.lint and reuse.cli.lint_file.lint_file (command bodies: output selection, exit status)",
     ]
     ctx.bounds = {
-        "project state": "2 covered files (names with a blank and a non-ASCII letter), per file expression in {none, MIT, GPL-3.0, Foo} x copyright x read error; LICENSES: MIT, GPL-3.0, Foo each in {absent, ID.txt" + (", ID" if tier != "quick" else "") + "}",
+        "project state": "2 covered files (names with a blank and a non-ASCII letter), per file expression in {none, MIT, Foo, MIT AND Foo, (MIT OR GPL-3.0)} x copyright x read error; LICENSES: MIT, GPL-3.0, Foo each in {absent, ID.txt" + (", ID" if tier != "quick" else "") + "}",
         "lint-file": "every subset F of the two covered files plus one non-covered file",
     }
     ctx.stubs = ["as C01/C06 (reuse_info_of, listing, echo captured)", "the parsers of the three text formats run natively"]
